@@ -168,16 +168,30 @@ def showFields (app : App) (s : State) : String :=
     let p := app.param i
     if guardsOn p s then some (String.ofList p.addr ++ "=" ++ showVal (s i)) else none)) ","
 
+/-- an enumeration symbol and its index denote the same value: print the index -/
+def normVal (app : App) (addr : Path) (v : Val) : Val :=
+  match v, app.findAddr addr with
+  | .sym s, some i =>
+    match (app.param i).kind with
+    | .opt names => match enumKey names s with | some k => .int k | none => v
+    | _ => v
+  | _, _ => v
+
+def normLine (app : App) (l : Line) : Line :=
+  match l.args with
+  | .plain vs => ⟨l.addr, .plain (vs.map (normVal app l.addr))⟩
+  | .arr _ => l
+
 def showLine (l : Line) : String :=
   String.ofList l.addr ++ ":" ++
   match l.args with
   | .plain vs => ";".intercalate (vs.map showVal)
   | .arr vs => "[" ++ ";".intercalate (vs.map showVal) ++ "]"
 
-def showLines (ls : List Line) : String := joinOr (sortStrs (ls.map showLine)) ","
+def showLines (app : App) (ls : List Line) : String := joinOr (sortStrs (ls.map fun l => showLine (normLine app l))) ","
 
 def showRes : LoadRes → String
-  | .ok s n => s!"R {n}"
+  | .ok _ n => s!"R {n}"
   | .fail => "R neg"
   | .undefined => "R undefined"
 
@@ -233,7 +247,7 @@ def step (line : String) : String :=
       if mode = "txt" then "TXT -" else
       if mode = "sl" then
         let r := app.loadFile file app.init
-        s!"O {showFields app s} S {showLines lines} H 1 {showResF app r}"
+        s!"O {showFields app s} S {showLines app lines} H 1 {showResF app r}"
       else if mode = "bad" then
         let n := lines.length
         let f : Option File :=
